@@ -193,6 +193,8 @@ def _tree_worker(args):
 
 
 def run_exhaustive(ctx, sub, cases, modname, funcname, nproc=16):
+    if ctx.shard_id != 0:
+        return {}
     cases = list(cases)
     mpctx = multiprocessing.get_context('fork')
     tot = {'levels': 0, 'histories': 0, 'sim_calls': 0, 'max_err': 0.0}
